@@ -10,6 +10,7 @@ import (
 	"sort"
 	"strings"
 	"sync"
+	"sync/atomic"
 	"time"
 
 	"github.com/uhn/ggql/pkg/ggql"
@@ -98,8 +99,9 @@ type Call struct {
 
 // World is a ggql root wired to fixtures serving the case's graph.
 type World struct {
-	C    *Case
-	Root *ggql.Root
+	hiddenHandedOut int64
+	C               *Case
+	Root            *ggql.Root
 
 	mu      sync.Mutex
 	calls   []Call
@@ -253,8 +255,22 @@ func (w *World) resolveNode(strategy string, id int, field *ggql.Field, args map
 			return v.S + "|" + hx.CanonArgs(args), nil
 		}
 	}
+	if hv, has := n.Hidden[field.Name]; has && strategy == "A" && w.C.AnyInstalled && v.K == "list" && len(v.L) == 0 {
+		// the data layer's own slice, members and all: whether it is shown is the root resolver's
+		// business (anyRes.Len says 0 for it), not reflection's
+		atomic.AddInt64(&w.hiddenHandedOut, 1)
+		countRep("go-slice-with-members-the-root-resolver-hides")
+		out := make([]anyElem, len(hv.L))
+		for i, e := range hv.L {
+			out[i] = w.project(e, ft.List, fmt.Sprintf("%s.hidden%d", fkey(id, field.Name), i))
+		}
+		return out, nil
+	}
 	return w.project(v, ft, fkey(id, field.Name)), nil
 }
+
+// HiddenHandedOut: how many times a list with hidden members was handed to ggql.
+func (w *World) HiddenHandedOut() int { return int(atomic.LoadInt64(&w.hiddenHandedOut)) }
 
 // Resolve implements ggql.Resolver.
 func (n *RNode) Resolve(field *ggql.Field, args map[string]interface{}) (interface{}, error) {
